@@ -43,7 +43,11 @@ class Server(object):
         except (Exception, SystemExit) as e:  # evaluated code may call sys.exit()
             logger.exception('%s error', name)
             is_ok = False
-            result = e.__class__.__name__, str(e)
+            try:
+                message = str(e)
+            except Exception:  # a class defined by evaluated code may fail to describe itself
+                message = '<unprintable %s object>' % e.__class__.__name__
+            result = e.__class__.__name__, message
 
         # logger.error('PROCESS %r %r %r: %r', name, args, kwargs, result)
         return result, is_ok
